@@ -2,10 +2,12 @@
 EXTENDS AnkoChanSeq, Json
 CONSTANTS MaxLen, Caps
 OpsA == {"s1", "s2", "r", "rk", "c"}
+OpsS == {"s1", "s2", "sw", "c", "r"}          \* programs with a receive as a switch subject
 OpsR == {"s1", "c", "rl", "dl", "r"}          \* programs with the relay form (a shorter bound: the alphabet is as large)
 VARIABLES prog, cap, done
-Init == prog \in UNION {[1..n -> OpsA] : n \in 1..MaxLen} \cup UNION {[1..n -> OpsR] : n \in 1..(MaxLen - 1)} /\ cap \in Caps /\ done = FALSE
+Init == prog \in UNION {[1..n -> OpsA] : n \in 1..MaxLen} \cup UNION {[1..n -> OpsR] : n \in 1..(MaxLen - 1)} \cup UNION {[1..n -> OpsS] : n \in 1..(MaxLen - 1)} /\ cap \in Caps /\ done = FALSE
 Step == ~done /\ done' = TRUE /\ UNCHANGED <<prog, cap>>
         /\ LET r == SeqRun(cap, prog) IN PrintT(ToJson([cap |-> cap, ops |-> prog, blocks |-> r.blocks, obs |-> r.obs]))
+ASSUME \A c \in 1..4 : CapacityLaw(c)
 Spec == Init /\ [][Step]_<<prog, cap, done>>
 =============================================================================
